@@ -920,6 +920,13 @@ class RTCSctpTransport(AsyncIOEventEmitter):
             ochunk._retransmit = False
             if ochunk.flags & SCTP_DATA_LAST_FRAG:
                 break
+        else:
+            # The remainder of the message has not been transmitted yet, it
+            # must be skipped too instead of being sent as orphan fragments.
+            for ochunk in self._outbound_queue:
+                ochunk._abandoned = True
+                if ochunk.flags & SCTP_DATA_LAST_FRAG:
+                    break
 
         return True
 
@@ -1588,9 +1595,14 @@ class RTCSctpTransport(AsyncIOEventEmitter):
                     self._t3_restart()
             retransmit_earliest = False
 
-        while self._outbound_queue and self._flight_size < cwnd:
+        while self._outbound_queue and (
+            self._outbound_queue[0]._abandoned or self._flight_size < cwnd
+        ):
             chunk = self._outbound_queue.popleft()
             self._sent_queue.append(chunk)
+            if chunk._abandoned:
+                # never transmitted, it will be skipped by a FORWARD TSN
+                continue
             self._flight_size_increase(chunk)
 
             # update counters
@@ -1637,8 +1649,16 @@ class RTCSctpTransport(AsyncIOEventEmitter):
         streams = {}
         if self._forward_tsn_pending is not None:
             streams.update(self._forward_tsn_pending.streams)
-        while self._sent_queue and self._sent_queue[0]._abandoned:
-            chunk = self._sent_queue.popleft()
+        while True:
+            if self._sent_queue:
+                if not self._sent_queue[0]._abandoned:
+                    break
+                chunk = self._sent_queue.popleft()
+            elif self._outbound_queue and self._outbound_queue[0]._abandoned:
+                # abandoned before it was ever transmitted
+                chunk = self._outbound_queue.popleft()
+            else:
+                break
             self._advanced_peer_ack_tsn = chunk.tsn
             done += 1
             if not (chunk.flags & SCTP_DATA_UNORDERED):
